@@ -1,7 +1,7 @@
-\* thorough tier generation: transition cover of the complete graphs of LRU>Snappy and Snappy>LRU (capacity 1,
+\* thorough tier generation: transition cover of the complete graph of Snappy>LRU (capacity 1,
 \* default TTL 2, foreign undecodable backend writes; model-distinct operations only).
 CONSTANTS
-  StackIds = {7, 8}
+  StackIds = {8}
   Caps = {1}
   DTTLs = {2}
   Keys = {"k1", "k2"}
